@@ -1,7 +1,12 @@
 /-
 C18 — light-node licences: escrow, creation, activation, vesting, attested sales.
-Model: `Model/LightNode.lean`.  Everything below holds for ALL states / histories (`run State.init ops`),
-all amounts, denominations, vesting periods, signers and funder balance situations.
+Model: `Model/LightNode.lean`.  The property quantifies over histories: the main statements are about
+`run State.init ops` for ALL `ops` (all amounts, denominations, vesting months, signers, funder balance
+situations, accepted and rejected operations), proved by invariants (`Inv`), by `run_origin` ("the step of
+the history that established a fact, and the fact held ever since": `Along`) and by induction over `ops`.
+Ghost/abstract data is tied to the history: `gifts` = Σ accepted gift ops (`giftLog`), a stored licence =
+the `Issued` purchase in the history, a fee grant = the grant message / sale that wrote it, the end of the
+vesting period = `addMonths now l.months` computed from the stored licence (Go's `AddDate`).
 -/
 import PalomaModel.Model.LightNode
 
@@ -138,6 +143,214 @@ theorem vestedAt_linear (orig start stop t : Nat) (h1 : start < t) (h2 : t < sto
   have hml := Nat.mod_lt (x * (prec * prec)) hy
   rw [hA] at hdm
   exact ⟨lin_up v orig S A prec x y _ hb1.1 hb2.1 hdm, lin_lo v orig S A prec x y _ hb1.2 hb2.2 hdm hml⟩
+
+/-! ### calendar arithmetic: `addMonths` (Go's `AddDate(0, months, 0)`) -/
+
+theorem isLeap_iff (y : Nat) : isLeap y = true ↔ (y % 4 = 0 ∧ (y % 100 ≠ 0 ∨ y % 400 = 0)) := by
+  simp [isLeap]
+
+private theorem c4 (y : Nat) : (y + 1 + 3) / 4 = (y + 3) / 4 + (if y % 4 = 0 then 1 else 0) := by split <;> omega
+private theorem c100 (y : Nat) : (y + 1 + 99) / 100 = (y + 99) / 100 + (if y % 100 = 0 then 1 else 0) := by split <;> omega
+private theorem c400 (y : Nat) : (y + 1 + 399) / 400 = (y + 399) / 400 + (if y % 400 = 0 then 1 else 0) := by split <;> omega
+private theorem m100_4 (y : Nat) (h : y % 100 = 0) : y % 4 = 0 := by omega
+private theorem m400_100 (y : Nat) (h : y % 400 = 0) : y % 100 = 0 := by omega
+private theorem c100_le (y : Nat) : (y + 99) / 100 ≤ (y + 3) / 4 := by omega
+
+/-- a year has 365 days, a leap year 366 -/
+theorem daysBeforeYear_succ (y : Nat) :
+    daysBeforeYear (y + 1) = daysBeforeYear y + 365 + (if isLeap y = true then 1 else 0) := by
+  unfold daysBeforeYear
+  rw [c4, c100, c400]
+  simp only [isLeap_iff]
+  have := c100_le y
+  generalize (y + 3) / 4 = a at *
+  generalize (y + 99) / 100 = b at *
+  generalize (y + 399) / 400 = c at *
+  by_cases h400 : y % 400 = 0
+  · have h100 := m400_100 y h400
+    have h4 := m100_4 y h100
+    simp only [h400, h100, h4, if_true, true_and, or_true]
+    omega
+  · by_cases h100 : y % 100 = 0
+    · have h4 := m100_4 y h100
+      simp only [h400, h100, h4, if_true, if_false, true_and, or_false, not_true, ne_eq]
+      omega
+    · by_cases h4 : y % 4 = 0
+      · simp only [h400, h100, h4, if_true, if_false, true_and, or_false, not_false_eq_true, ne_eq]
+        omega
+      · simp only [h400, h100, h4, if_false, false_and]
+        omega
+
+private theorem dBY_lo (z y : Nat) (h : 146097 * (y + 1) ≤ 400 * z) : daysBeforeYear y ≤ z := by
+  unfold daysBeforeYear; omega
+
+private theorem dBY_hi (z y : Nat) (h : 400 * z < 146097 * y) : z < daysBeforeYear (y + 1) := by
+  unfold daysBeforeYear; omega
+
+/-- `yearOf z` IS the civil year of day `z`: the year whose first day is at or before `z` and whose successor's
+first day is after `z` -/
+theorem yearOf_spec (z : Nat) : daysBeforeYear (yearOf z) ≤ z ∧ z < daysBeforeYear (yearOf z + 1) := by
+  unfold yearOf
+  generalize hy : z * 400 / 146097 = y
+  have h1 : 146097 * y ≤ 400 * z := by omega
+  have h2 : 400 * z < 146097 * (y + 1) := by omega
+  split
+  · rename_i h
+    cases y with
+    | zero => simp [daysBeforeYear] at h
+    | succ y' =>
+      simp only [Nat.add_sub_cancel]
+      exact ⟨dBY_lo z y' h1, h⟩
+  · split
+    · rename_i h
+      exact ⟨h, dBY_hi z (y + 1) h2⟩
+    · constructor <;> omega
+
+def leapDay (y : Nat) : Nat := if isLeap y = true then 1 else 0
+
+theorem leapDay_le (y : Nat) : leapDay y ≤ 1 := by unfold leapDay; split <;> omega
+
+/-- the month table: 31 28/29 31 30 31 30 31 31 30 31 30 31 -/
+theorem daysBeforeMonth_vals (y : Nat) :
+    daysBeforeMonth y 1 = 0 ∧ daysBeforeMonth y 2 = 31 ∧ daysBeforeMonth y 3 = 59 + leapDay y ∧
+    daysBeforeMonth y 4 = 90 + leapDay y ∧ daysBeforeMonth y 5 = 120 + leapDay y ∧ daysBeforeMonth y 6 = 151 + leapDay y ∧
+    daysBeforeMonth y 7 = 181 + leapDay y ∧ daysBeforeMonth y 8 = 212 + leapDay y ∧ daysBeforeMonth y 9 = 243 + leapDay y ∧
+    daysBeforeMonth y 10 = 273 + leapDay y ∧ daysBeforeMonth y 11 = 304 + leapDay y ∧ daysBeforeMonth y 12 = 334 + leapDay y ∧
+    daysBeforeMonth y 13 = 365 + leapDay y := by
+  unfold daysBeforeMonth leapDay
+  cases isLeap y <;> decide
+
+private theorem dBM_step (y i : Nat) (hi : i < 11) :
+    daysBeforeMonth y (i + 1) + 28 ≤ daysBeforeMonth y (i + 2) ∧ daysBeforeMonth y (i + 2) ≤ daysBeforeMonth y (i + 1) + 31 := by
+  obtain ⟨h1, h2, h3, h4, h5, h6, h7, h8, h9, h10, h11, h12, h13⟩ := daysBeforeMonth_vals y
+  have hl := leapDay_le y
+  have : i = 0 ∨ i = 1 ∨ i = 2 ∨ i = 3 ∨ i = 4 ∨ i = 5 ∨ i = 6 ∨ i = 7 ∨ i = 8 ∨ i = 9 ∨ i = 10 := by omega
+  rcases this with h | h | h | h | h | h | h | h | h | h | h <;> subst h <;>
+    simp only [Nat.zero_add, Nat.reduceAdd, h1, h2, h3, h4, h5, h6, h7, h8, h9, h10, h11, h12] <;> omega
+
+/-- every calendar month has between 28 and 31 days -/
+theorem monthStart_step (n : Nat) : monthStart n + 28 ≤ monthStart (n + 1) ∧ monthStart (n + 1) ≤ monthStart n + 31 := by
+  unfold monthStart
+  by_cases h11 : n % 12 = 11
+  · have e1 : (n + 1) / 12 = n / 12 + 1 := by omega
+    have e2 : (n + 1) % 12 = 0 := by omega
+    rw [e1, e2, h11, daysBeforeYear_succ]
+    have hl := daysBeforeMonth_vals (n / 12)
+    have hl' := daysBeforeMonth_vals (n / 12 + 1)
+    simp only [Nat.zero_add, Nat.reduceAdd, hl.2.2.2.2.2.2.2.2.2.2.2.1, hl'.1]
+    unfold leapDay
+    omega
+  · have e1 : (n + 1) / 12 = n / 12 := by omega
+    have e2 : (n + 1) % 12 = n % 12 + 1 := by omega
+    rw [e1, e2]
+    have := dBM_step (n / 12) (n % 12) (by omega)
+    simp only [Nat.add_assoc, Nat.reduceAdd] at this ⊢
+    omega
+
+theorem monthStart_add (n k : Nat) :
+    monthStart n + 28 * k ≤ monthStart (n + k) ∧ monthStart (n + k) ≤ monthStart n + 31 * k := by
+  induction k with
+  | zero => simp
+  | succ k ih =>
+    have := monthStart_step (n + k)
+    rw [show n + (k + 1) = n + k + 1 from rfl]
+    omega
+
+/-- `monthOf y doy` IS the civil month of the `doy`-th day of year `y` -/
+theorem monthOf_spec (y doy : Nat) :
+    1 ≤ monthOf y doy ∧ monthOf y doy ≤ 12 ∧ daysBeforeMonth y (monthOf y doy) ≤ doy ∧
+    (doy < daysBeforeYear (y + 1) - daysBeforeYear y → doy < daysBeforeMonth y (monthOf y doy + 1)) := by
+  obtain ⟨h1, h2, h3, h4, h5, h6, h7, h8, h9, h10, h11, h12, h13⟩ := daysBeforeMonth_vals y
+  have hs := daysBeforeYear_succ y
+  rw [show (if isLeap y = true then 1 else 0) = leapDay y from rfl] at hs
+  rw [hs]
+  clear hs
+  have hL := leapDay_le y
+  generalize hm : monthOf y doy = m
+  unfold monthOf at hm
+  rw [h2, h3, h4, h5, h6, h7, h8, h9, h10, h11, h12] at hm
+  by_cases c1 : doy < 31
+  · rw [if_pos c1] at hm; subst hm; simp only [Nat.reduceAdd, h1, h2]; clear h1 h2 h3 h4 h5 h6 h7 h8 h9 h10 h11 h12 h13; omega
+  rw [if_neg c1] at hm
+  by_cases c2 : doy < 59 + leapDay y
+  · rw [if_pos c2] at hm; subst hm; simp only [Nat.reduceAdd, h2, h3]; clear h1 h2 h3 h4 h5 h6 h7 h8 h9 h10 h11 h12 h13; omega
+  rw [if_neg c2] at hm
+  by_cases c3 : doy < 90 + leapDay y
+  · rw [if_pos c3] at hm; subst hm; simp only [Nat.reduceAdd, h3, h4]; clear h1 h2 h3 h4 h5 h6 h7 h8 h9 h10 h11 h12 h13; omega
+  rw [if_neg c3] at hm
+  by_cases c4 : doy < 120 + leapDay y
+  · rw [if_pos c4] at hm; subst hm; simp only [Nat.reduceAdd, h4, h5]; clear h1 h2 h3 h4 h5 h6 h7 h8 h9 h10 h11 h12 h13; omega
+  rw [if_neg c4] at hm
+  by_cases c5 : doy < 151 + leapDay y
+  · rw [if_pos c5] at hm; subst hm; simp only [Nat.reduceAdd, h5, h6]; clear h1 h2 h3 h4 h5 h6 h7 h8 h9 h10 h11 h12 h13; omega
+  rw [if_neg c5] at hm
+  by_cases c6 : doy < 181 + leapDay y
+  · rw [if_pos c6] at hm; subst hm; simp only [Nat.reduceAdd, h6, h7]; clear h1 h2 h3 h4 h5 h6 h7 h8 h9 h10 h11 h12 h13; omega
+  rw [if_neg c6] at hm
+  by_cases c7 : doy < 212 + leapDay y
+  · rw [if_pos c7] at hm; subst hm; simp only [Nat.reduceAdd, h7, h8]; clear h1 h2 h3 h4 h5 h6 h7 h8 h9 h10 h11 h12 h13; omega
+  rw [if_neg c7] at hm
+  by_cases c8 : doy < 243 + leapDay y
+  · rw [if_pos c8] at hm; subst hm; simp only [Nat.reduceAdd, h8, h9]; clear h1 h2 h3 h4 h5 h6 h7 h8 h9 h10 h11 h12 h13; omega
+  rw [if_neg c8] at hm
+  by_cases c9 : doy < 273 + leapDay y
+  · rw [if_pos c9] at hm; subst hm; simp only [Nat.reduceAdd, h9, h10]; clear h1 h2 h3 h4 h5 h6 h7 h8 h9 h10 h11 h12 h13; omega
+  rw [if_neg c9] at hm
+  by_cases c10 : doy < 304 + leapDay y
+  · rw [if_pos c10] at hm; subst hm; simp only [Nat.reduceAdd, h10, h11]; clear h1 h2 h3 h4 h5 h6 h7 h8 h9 h10 h11 h12 h13; omega
+  rw [if_neg c10] at hm
+  by_cases c11 : doy < 334 + leapDay y
+  · rw [if_pos c11] at hm; subst hm; simp only [Nat.reduceAdd, h11, h12]; clear h1 h2 h3 h4 h5 h6 h7 h8 h9 h10 h11 h12 h13; omega
+  rw [if_neg c11] at hm
+  subst hm; simp only [Nat.reduceAdd, h12, h13]; clear h1 h2 h3 h4 h5 h6 h7 h8 h9 h10 h11 h12 h13; omega
+
+theorem monthStart_monthIdxAt (t : Nat) :
+    monthStart (monthIdxAt t) = daysBeforeYear (yearAt t) + daysBeforeMonth (yearAt t) (monthAt t) := by
+  have hm := monthOf_spec (yearAt t) (dayNo t - daysBeforeYear (yearAt t))
+  have hm1 : 1 ≤ monthAt t := hm.1
+  have hm2 : monthAt t ≤ 12 := hm.2.1
+  unfold monthStart monthIdxAt
+  have e1 : (12 * yearAt t + (monthAt t - 1)) / 12 = yearAt t := by omega
+  have e2 : (12 * yearAt t + (monthAt t - 1)) % 12 + 1 = monthAt t := by omega
+  rw [e1, e2]
+
+/-- year, month and day of the month computed for a time give back its day number -/
+theorem civil_roundtrip (t : Nat) : monthStart (monthIdxAt t) + domAt t = dayNo t := by
+  rw [monthStart_monthIdxAt]
+  have hy : daysBeforeYear (yearAt t) ≤ dayNo t := (yearOf_spec (dayNo t)).1
+  have hm : daysBeforeMonth (yearAt t) (monthAt t) ≤ dayNo t - daysBeforeYear (yearAt t) :=
+    (monthOf_spec (yearAt t) (dayNo t - daysBeforeYear (yearAt t))).2.2.1
+  unfold domAt
+  omega
+
+/-- adding `k` months moves a time forward by the length of the `k` calendar months that start with its own -/
+theorem addMonths_eq_shift (t k : Nat) :
+    addMonths t k = t + (monthStart (monthIdxAt t + k) - monthStart (monthIdxAt t)) * daySecs := by
+  have rt := civil_roundtrip t
+  have ms := monthStart_add (monthIdxAt t) k
+  have hd : dayNo t = t / 86400 + 719528 := rfl
+  have hdm := Nat.div_add_mod t 86400
+  unfold addMonths
+  simp only [daySecs, epochDays]
+  generalize monthStart (monthIdxAt t + k) = A at *
+  generalize monthStart (monthIdxAt t) = B at *
+  generalize domAt t = D at *
+  have e : A + D - 719528 = t / 86400 + (A - B) := by omega
+  rw [e, Nat.add_mul]
+  omega
+
+theorem addMonths_zero (t : Nat) : addMonths t 0 = t := by
+  rw [addMonths_eq_shift, Nat.add_zero, Nat.sub_self, Nat.zero_mul, Nat.add_zero]
+
+/-- `k` months are at least `28·k` and at most `31·k` days -/
+theorem addMonths_bounds (t k : Nat) :
+    t + 28 * 86400 * k ≤ addMonths t k ∧ addMonths t k ≤ t + 31 * 86400 * k := by
+  have ms := monthStart_add (monthIdxAt t) k
+  rw [addMonths_eq_shift]
+  simp only [daySecs]
+  generalize monthStart (monthIdxAt t + k) = A at *
+  generalize monthStart (monthIdxAt t) = B at *
+  omega
 
 /-! ### the licence table -/
 theorem sumLic_append (d : Denom) (l : List (AddrStr × Lic)) (x : AddrStr × Lic) :
@@ -413,11 +626,11 @@ theorem sale_rejected (s : State) (ch : Chain) (cl : Option AddrStr) (g : Int) (
   · exact h'
   · rw [h'] at h; cases h
 
-theorem activate_ok (s : State) (sg : Addr) (cr : AddrStr) (stop now : Nat) (h : (activate s sg cr stop now).2 = .ok) :
+theorem activate_ok (s : State) (sg : Addr) (cr : AddrStr) (now : Nat) (h : (activate s sg cr now).2 = .ok) :
     authorisedStr s sg cr = true ∧
     ∃ l, lookupLic s.lics cr = some l ∧ s.acct cr.addr = .base ∧ 0 < l.amount ∧ l.amount ≤ s.escrow l.denom ∧
-      (activate s sg cr stop now).1 =
-        { s with acct := updA s.acct cr.addr (.vesting l.amount l.denom now stop),
+      (activate s sg cr now).1 =
+        { s with acct := updA s.acct cr.addr (.vesting l.amount l.denom now (addMonths now l.months)),
                  bal := upd2 s.bal cr.addr l.denom (s.bal cr.addr l.denom + l.amount),
                  escrow := upd s.escrow l.denom (s.escrow l.denom - l.amount),
                  lics := eraseLic s.lics cr,
@@ -443,9 +656,9 @@ theorem activate_ok (s : State) (sg : Addr) (cr : AddrStr) (stop now : Nat) (h :
             refine ⟨ha', l, hl, h1', by omega, by omega, ?_⟩
             simp [activate, ha', hl, h1', h2, h3]
 
-theorem activate_rejected (s : State) (sg : Addr) (cr : AddrStr) (stop now : Nat)
-    (h : (activate s sg cr stop now).2 = .rejected) : (activate s sg cr stop now).1 = s := by
-  have : (activate s sg cr stop now).1 = s ∨ (activate s sg cr stop now).2 = .ok := by
+theorem activate_rejected (s : State) (sg : Addr) (cr : AddrStr) (now : Nat)
+    (h : (activate s sg cr now).2 = .rejected) : (activate s sg cr now).1 = s := by
+  have : (activate s sg cr now).1 = s ∨ (activate s sg cr now).2 = .ok := by
     unfold activate
     repeat' split
     all_goals first | (left; rfl) | (right; rfl)
@@ -659,12 +872,12 @@ theorem inv_step {s : State} (h : Inv s) (op : Op) : Inv (step s op).1 := by
         have := Int.mul_pos hpos hg
         omega
       exact (h.licState f c _ bondDenom saleMonths this hl hc).of_frame ⟨rfl, rfl, rfl, fun _ _ => rfl⟩
-  | activate sg cr stop now =>
+  | activate sg cr now =>
     simp only [step]
-    cases hr : (activate s sg cr stop now).2 with
-    | rejected => rw [activate_rejected _ _ _ _ _ hr]; exact h
+    cases hr : (activate s sg cr now).2 with
+    | rejected => rw [activate_rejected _ _ _ _ hr]; exact h
     | ok =>
-      obtain ⟨_, l, hl, hb, hpos, hesc, hs'⟩ := activate_ok _ _ _ _ _ hr
+      obtain ⟨_, l, hl, hb, hpos, hesc, hs'⟩ := activate_ok _ _ _ _ hr
       rw [hs']
       refine ⟨?_, keysNodup_erase _ _ h.nodup, ?_, ?_⟩
       · intro d
@@ -773,12 +986,12 @@ theorem vesting_persists (s : State) (op : Op) (a : Addr) (o : Nat) (d : Denom) 
       split
       · rename_i hac; subst hac; exact absurd hc hne
       · exact h
-  | activate sg cr stop now =>
+  | activate sg cr now =>
     simp only [step]
-    cases hr : (activate s sg cr stop now).2 with
-    | rejected => rw [activate_rejected _ _ _ _ _ hr]; exact h
+    cases hr : (activate s sg cr now).2 with
+    | rejected => rw [activate_rejected _ _ _ _ hr]; exact h
     | ok =>
-      obtain ⟨_, l, _, hb, _, _, hs'⟩ := activate_ok _ _ _ _ _ hr
+      obtain ⟨_, l, _, hb, _, _, hs'⟩ := activate_ok _ _ _ _ hr
       rw [hs']
       simp only [updA]
       split
@@ -836,12 +1049,12 @@ theorem new_licence (s : State) (op : Op) (a : AddrStr) (l : Lic)
         simp only [Option.some.injEq] at h1
         exact ⟨hc, rfl, Or.inr ⟨ch, g, ct, now, rfl, h1.symm⟩⟩
       · cases h1
-  | activate sg cr stop now =>
+  | activate sg cr now =>
     simp only [step] at h1
-    cases hr : (activate s sg cr stop now).2 with
-    | rejected => rw [activate_rejected _ _ _ _ _ hr, h0] at h1; cases h1
+    cases hr : (activate s sg cr now).2 with
+    | rejected => rw [activate_rejected _ _ _ _ hr, h0] at h1; cases h1
     | ok =>
-      obtain ⟨_, l', _, _, _, _, hs'⟩ := activate_ok _ _ _ _ _ hr
+      obtain ⟨_, l', _, _, _, _, hs'⟩ := activate_ok _ _ _ _ hr
       rw [hs'] at h1
       simp only [lookupLic_erase_none _ _ _ h0] at h1
       cases h1
@@ -878,12 +1091,12 @@ theorem step_gifts (s : State) (op : Op) (h : op.isGift = false) : (step s op).1
     | ok =>
       obtain ⟨_, _, _, fg, fl, f, c, _, _, _, _, _, _, _, _, _, _, hs'⟩ := sale_ok _ _ _ _ _ _ hr
       rw [hs']; rfl
-  | activate sg cr stop now =>
+  | activate sg cr now =>
     simp only [step]
-    cases hr : (activate s sg cr stop now).2 with
-    | rejected => rw [activate_rejected _ _ _ _ _ hr]
+    cases hr : (activate s sg cr now).2 with
+    | rejected => rw [activate_rejected _ _ _ _ hr]
     | ok =>
-      obtain ⟨_, l, _, _, _, _, hs'⟩ := activate_ok _ _ _ _ _ hr
+      obtain ⟨_, l, _, _, _, _, hs'⟩ := activate_ok _ _ _ _ hr
       rw [hs']
   | auth sg cr => simp only [step, auth_state]
   | legacy sg cr => exact (legacy_frame s sg cr).gifts
@@ -951,12 +1164,12 @@ theorem step_contracts (s : State) (op : Op) (h : op.isSetContracts = false) :
     | ok =>
       obtain ⟨_, _, _, fg, fl, f, c, _, _, _, _, _, _, _, _, _, _, hs'⟩ := sale_ok _ _ _ _ _ _ hr
       rw [hs']; rfl
-  | activate sg cr stop now =>
+  | activate sg cr now =>
     simp only [step]
-    cases hr : (activate s sg cr stop now).2 with
-    | rejected => rw [activate_rejected _ _ _ _ _ hr]
+    cases hr : (activate s sg cr now).2 with
+    | rejected => rw [activate_rejected _ _ _ _ hr]
     | ok =>
-      obtain ⟨_, l, _, _, _, _, hs'⟩ := activate_ok _ _ _ _ _ hr
+      obtain ⟨_, l, _, _, _, _, hs'⟩ := activate_ok _ _ _ _ hr
       rw [hs']
   | auth sg cr => simp only [step, auth_state]
   | legacy sg cr =>
@@ -997,6 +1210,559 @@ theorem run_contracts (s : State) (ops : List Op) (ch : Chain) (ct : CStr)
         | _ => simp [Op.isSetContracts] at hop
     · exact Or.inr ⟨l, List.mem_cons_of_mem _ hl, hm⟩
 
+/-! ### histories: prefixes, states passed through, and the step that established a fact -/
+
+theorem run_append (s : State) (l1 l2 : List Op) : run s (l1 ++ l2) = run (run s l1) l2 := by
+  induction l1 generalizing s with
+  | nil => rfl
+  | cons x t ih => exact ih _
+
+theorem inv_reach (pre : List Op) : Inv (run State.init pre) := inv_run Inv.init pre
+
+/-- `P` holds in EVERY state the history `ops` passes through when started in `s` — `s` itself and the final
+state included -/
+def Along (P : State → Prop) (s : State) : List Op → Prop
+  | [] => P s
+  | op :: ops => P s ∧ Along P (step s op).1 ops
+
+theorem Along.head {P : State → Prop} {s : State} {ops : List Op} (h : Along P s ops) : P s := by
+  cases ops with
+  | nil => exact h
+  | cons _ _ => exact h.1
+
+theorem Along.last {P : State → Prop} {s : State} {ops : List Op} (h : Along P s ops) : P (run s ops) := by
+  induction ops generalizing s with
+  | nil => exact h
+  | cons op ops ih => exact ih h.2
+
+/-- … and in particular after every prefix of the history -/
+theorem Along.prefix {P : State → Prop} {s : State} {ops : List Op} (h : Along P s ops) (l1 l2 : List Op)
+    (he : ops = l1 ++ l2) : P (run s l1) := by
+  induction l1 generalizing s ops with
+  | nil => exact h.head
+  | cons x t ih =>
+    subst he
+    exact ih h.2 rfl
+
+/-- if `P` holds after a history, then either it held all along, or some step of the history established it
+(it did not hold before that step) and it held in every state from then on -/
+theorem run_origin (P : State → Prop) (s : State) (ops : List Op) (h : P (run s ops)) :
+    Along P s ops ∨
+      ∃ pre op post, ops = pre ++ op :: post ∧ ¬ P (run s pre) ∧ Along P (step (run s pre) op).1 post := by
+  induction ops generalizing s with
+  | nil => exact Or.inl h
+  | cons x t ih =>
+    rcases ih (step s x).1 h with h' | ⟨pre, op, post, he, hn, ha⟩
+    · by_cases hp : P s
+      · exact Or.inl ⟨hp, h'⟩
+      · exact Or.inr ⟨[], x, t, rfl, hp, h'⟩
+    · exact Or.inr ⟨x :: pre, op, post, by rw [he]; rfl, hn, ha⟩
+
+/-! ### what a single step does to a stored licence -/
+
+theorem sumLic_ge (d : Denom) (l : List (AddrStr × Lic)) (a : AddrStr) (v : Lic)
+    (h : lookupLic l a = some v) (hd : v.denom = d) : v.amount ≤ sumLic d l := by
+  have := sumLic_erase d l a v h
+  simp [hd] at this; omega
+
+/-- a stored licence is left exactly as it is by every operation, except that an ACCEPTED activation naming
+its own key removes it -/
+theorem licence_step (s : State) (hi : Inv s) (op : Op) (a : AddrStr) (l : Lic)
+    (h0 : lookupLic s.lics a = some l) :
+    lookupLic (step s op).1.lics a = some l ∨
+      (lookupLic (step s op).1.lics a = none ∧ ∃ sg now, op = .activate sg a now ∧ (step s op).2 = .ok) := by
+  cases op with
+  | create sg cr cl amt d m now =>
+    simp only [step]
+    cases hr : (create s sg cr cl amt d m now).2 with
+    | rejected => rw [create_rejected _ _ _ _ _ _ _ _ hr]; exact Or.inl h0
+    | ok =>
+      obtain ⟨_, c, _, _, _, _, _, _, hs'⟩ := create_ok _ _ _ _ _ _ _ _ hr
+      rw [hs']; left; simp [licState, lookupLic_append, h0]
+  | sale ch cl g ct now =>
+    simp only [step]
+    cases hr : (sale s ch cl g ct now).2 with
+    | rejected => rw [sale_rejected _ _ _ _ _ _ hr]; exact Or.inl h0
+    | ok =>
+      obtain ⟨_, _, _, fg, fl, f, c, _, _, _, _, _, _, _, _, _, _, hs'⟩ := sale_ok _ _ _ _ _ _ hr
+      rw [hs']; left; simp [licState, lookupLic_append, h0]
+  | activate sg cr now =>
+    simp only [step]
+    cases hr : (activate s sg cr now).2 with
+    | rejected => rw [activate_rejected _ _ _ _ hr]; exact Or.inl h0
+    | ok =>
+      obtain ⟨_, l', _, _, _, _, hs'⟩ := activate_ok _ _ _ _ hr
+      by_cases hk : cr = a
+      · subst hk; right
+        refine ⟨?_, sg, now, rfl, rfl⟩
+        rw [hs']; exact lookupLic_erase_self _ _ hi.nodup
+      · rw [hs']; left; simp [lookupLic_erase_ne _ _ _ hk, h0]
+  | auth sg cr => simp only [step, auth_state]; exact Or.inl h0
+  | legacy sg cr => left; simp only [step]; rw [(legacy_frame s sg cr).lics]; exact h0
+  | send x y d' amt now => left; simp only [step]; rw [(send_frame s x y d' amt now).lics]; exact h0
+  | grant g e => left; simp only [step]; rw [(grant_frame s g e).lics]; exact h0
+  | gift x d' amt now => left; simp only [step, (gift_frame_acct s x d' amt now).2]; exact h0
+  | fund x d' amt => left; simp only [step]; rw [(fund_frame s x d' amt).lics]; exact h0
+  | setFeegranter x => exact Or.inl h0
+  | setFunders l => exact Or.inl h0
+  | setContracts c => exact Or.inl h0
+
+/-- `op`, executed in state `s`, ISSUES licence `l` under key `k`: it is an accepted licence purchase (message
+or attested sale) naming `k`, for an address that has neither an account nor a licence under any spelling; the
+licence records exactly the amount, denomination and vesting months of the purchase, the payer (the message's
+creator / a configured funder) is debited and the escrow credited by exactly that amount -/
+def Issued (s : State) (op : Op) (k : AddrStr) (l : Lic) : Prop :=
+  (step s op).2 = .ok ∧ s.acct k.addr = .none ∧ (∀ k' : AddrStr, k'.addr = k.addr → lookupLic s.lics k' = none) ∧
+  0 < l.amount ∧ (step s op).1.escrow l.denom = s.escrow l.denom + l.amount ∧
+  ((∃ sg cr amt d m now, op = .create sg cr (some k) amt d m now ∧ l = ⟨amt.toNat, d, m⟩ ∧
+      (step s op).1.bal cr d + amt.toNat = s.bal cr d) ∨
+   (∃ ch g ct now f, op = .sale ch (some k) g ct now ∧ l = ⟨(g * (grain : Int)).toNat, bondDenom, saleMonths⟩ ∧
+      (∃ fl, s.funders = some fl ∧ f ∈ fl) ∧
+      (step s op).1.bal f bondDenom + (g * (grain : Int)).toNat = s.bal f bondDenom))
+
+theorem inv_no_licence_of_no_account {s : State} (hi : Inv s) (a : Addr) (h : s.acct a = .none) :
+    ∀ k : AddrStr, k.addr = a → lookupLic s.lics k = none := by
+  intro k hk
+  cases hl : lookupLic s.lics k with
+  | none => rfl
+  | some l =>
+    have := (hi.lic k l hl).1
+    rw [hk, h] at this; cases this
+
+theorem issued_of_new (s : State) (hi : Inv s) (op : Op) (k : AddrStr) (l : Lic)
+    (h0 : lookupLic s.lics k = none) (h1 : lookupLic (step s op).1.lics k = some l) : Issued s op k l := by
+  obtain ⟨hacc, hok, hshape⟩ := new_licence s op k l h0 h1
+  have hnone := inv_no_licence_of_no_account hi k.addr hacc
+  have hpos := ((inv_step hi op).lic k l h1).2
+  rcases hshape with ⟨sg, cr, amt, d, m, now, hop, hl⟩ | ⟨ch, g, ct, now, hop, hl⟩
+  · subst hop
+    simp only [step] at hok h1 ⊢
+    obtain ⟨_, c, hc, hamt, _, _, _, hsp, hs'⟩ := create_ok _ _ _ _ _ _ _ _ hok
+    cases hc
+    have hle : amt.toNat ≤ s.bal cr d := by unfold spendable at hsp; omega
+    refine ⟨hok, hacc, hnone, hpos, ?_, Or.inl ⟨sg, cr, amt, d, m, now, rfl, hl, ?_⟩⟩
+    · simp only [step]; rw [hs', hl]; simp [licState, upd]
+    · simp only [step]; rw [hs']; simp [licState, upd2]; omega
+  · subst hop
+    simp only [step] at hok h1 ⊢
+    obtain ⟨_, _, _, fg, fl, f, c, _, hfl, hf, _, hc, _, _, _, hsp, _, hs'⟩ := sale_ok _ _ _ _ _ _ hok
+    cases hc
+    have hle : (g * (grain : Int)).toNat ≤ s.bal f bondDenom := by unfold spendable at hsp; omega
+    refine ⟨hok, hacc, hnone, hpos, ?_, Or.inr ⟨ch, g, ct, now, f, rfl, hl, ⟨fl, hfl, hf⟩, ?_⟩⟩
+    · simp only [step]; rw [hs', hl]; simp [licState, upd]
+    · simp only [step]; rw [hs']; simp [licState, upd2]; omega
+
+/-! ### fee grants and the fee granter only change in two ways each -/
+
+theorem touchAcct_grants (s : State) (a : Addr) : (touchAcct s a).grants = s.grants := by
+  unfold touchAcct; split <;> rfl
+
+theorem touchAcct_feegranter (s : State) (a : Addr) : (touchAcct s a).feegranter = s.feegranter := by
+  unfold touchAcct; split <;> rfl
+
+theorem touchAcct_bal (s : State) (a : Addr) : (touchAcct s a).bal = s.bal := by
+  unfold touchAcct; split <;> rfl
+
+/-- a fee grant that was not there before a step was issued BY THE GRANTER ITSELF (an accepted
+`MsgGrantAllowance`, which the granter signs), or written by an accepted sale for the grantee on behalf of the
+address governance configured as light-node fee granter -/
+theorem step_grants (s : State) (op : Op) (g e : Addr) (h0 : (g, e) ∉ s.grants)
+    (h1 : (g, e) ∈ (step s op).1.grants) :
+    (op = .grant g e ∧ (step s op).2 = .ok) ∨
+      (∃ ch c gr ct now, op = .sale ch (some c) gr ct now ∧ c.addr = e ∧ s.feegranter = some g ∧
+        (step s op).2 = .ok) := by
+  cases op with
+  | create sg cr cl amt d m now =>
+    simp only [step] at h1
+    cases hr : (create s sg cr cl amt d m now).2 with
+    | rejected => rw [create_rejected _ _ _ _ _ _ _ _ hr] at h1; exact absurd h1 h0
+    | ok =>
+      obtain ⟨_, c, _, _, _, _, _, _, hs'⟩ := create_ok _ _ _ _ _ _ _ _ hr
+      rw [hs'] at h1; exact absurd h1 h0
+  | sale ch cl gr ct now =>
+    simp only [step] at h1 ⊢
+    cases hr : (sale s ch cl gr ct now).2 with
+    | rejected => rw [sale_rejected _ _ _ _ _ _ hr] at h1; exact absurd h1 h0
+    | ok =>
+      obtain ⟨_, _, _, fg, fl, f, c, hfg, _, _, _, hc, _, _, _, _, _, hs'⟩ := sale_ok _ _ _ _ _ _ hr
+      rw [hs'] at h1
+      simp only [List.mem_append, List.mem_singleton, Prod.mk.injEq] at h1
+      rcases h1 with h1 | ⟨hg, he⟩
+      · exact absurd h1 h0
+      · right; subst hc; subst hg
+        exact ⟨ch, c, gr, ct, now, rfl, he.symm, hfg, rfl⟩
+  | activate sg cr now =>
+    simp only [step] at h1
+    cases hr : (activate s sg cr now).2 with
+    | rejected => rw [activate_rejected _ _ _ _ hr] at h1; exact absurd h1 h0
+    | ok =>
+      obtain ⟨_, l, _, _, _, _, hs'⟩ := activate_ok _ _ _ _ hr
+      rw [hs'] at h1; exact absurd h1 h0
+  | auth sg cr => simp only [step, auth_state] at h1; exact absurd h1 h0
+  | legacy sg cr =>
+    have : (step s (.legacy sg cr)).1.grants = s.grants := by
+      simp only [step]; unfold legacy
+      repeat' split
+      all_goals rfl
+    rw [this] at h1; exact absurd h1 h0
+  | send x y d' amt now =>
+    have : (step s (.send x y d' amt now)).1.grants = s.grants := by
+      simp only [step]; unfold send
+      repeat' split
+      all_goals first | rfl | exact touchAcct_grants _ _
+    rw [this] at h1; exact absurd h1 h0
+  | grant g' e' =>
+    simp only [step] at h1 ⊢
+    cases hr : (grant s g' e').2 with
+    | rejected => rw [grant_rejected _ _ _ hr] at h1; exact absurd h1 h0
+    | ok =>
+      left
+      have : (grant s g' e').1.grants = s.grants ++ [(g', e')] ∨ (grant s g' e').1.grants = s.grants := by
+        unfold grant
+        repeat' split
+        all_goals first | (right; rfl) | (left; exact touchAcct_grants _ _)
+      rcases this with h | h
+      · rw [h] at h1
+        simp only [List.mem_append, List.mem_singleton, Prod.mk.injEq] at h1
+        rcases h1 with h1 | ⟨hg, he⟩
+        · exact absurd h1 h0
+        · subst hg; subst he; exact ⟨rfl, rfl⟩
+      · rw [h] at h1; exact absurd h1 h0
+  | gift x d' amt now =>
+    have : (step s (.gift x d' amt now)).1.grants = s.grants := by
+      simp only [step]; unfold gift
+      repeat' split
+      all_goals rfl
+    rw [this] at h1; exact absurd h1 h0
+  | fund x d' amt =>
+    have : (step s (.fund x d' amt)).1.grants = s.grants := by
+      simp only [step]; unfold fund; exact touchAcct_grants _ _
+    rw [this] at h1; exact absurd h1 h0
+  | setFeegranter x => exact absurd h1 h0
+  | setFunders l => exact absurd h1 h0
+  | setContracts c => exact absurd h1 h0
+
+/-- the configured fee granter changes only through the governance proposal -/
+theorem step_feegranter (s : State) (op : Op) (g : Addr) (h1 : (step s op).1.feegranter = some g) :
+    s.feegranter = some g ∨ op = .setFeegranter g := by
+  cases op with
+  | create sg cr cl amt d m now =>
+    simp only [step] at h1
+    cases hr : (create s sg cr cl amt d m now).2 with
+    | rejected => rw [create_rejected _ _ _ _ _ _ _ _ hr] at h1; exact Or.inl h1
+    | ok =>
+      obtain ⟨_, c, _, _, _, _, _, _, hs'⟩ := create_ok _ _ _ _ _ _ _ _ hr
+      rw [hs'] at h1; exact Or.inl h1
+  | sale ch cl gr ct now =>
+    simp only [step] at h1
+    cases hr : (sale s ch cl gr ct now).2 with
+    | rejected => rw [sale_rejected _ _ _ _ _ _ hr] at h1; exact Or.inl h1
+    | ok =>
+      obtain ⟨_, _, _, fg, fl, f, c, _, _, _, _, _, _, _, _, _, _, hs'⟩ := sale_ok _ _ _ _ _ _ hr
+      rw [hs'] at h1; exact Or.inl h1
+  | activate sg cr now =>
+    simp only [step] at h1
+    cases hr : (activate s sg cr now).2 with
+    | rejected => rw [activate_rejected _ _ _ _ hr] at h1; exact Or.inl h1
+    | ok =>
+      obtain ⟨_, l, _, _, _, _, hs'⟩ := activate_ok _ _ _ _ hr
+      rw [hs'] at h1; exact Or.inl h1
+  | auth sg cr => simp only [step, auth_state] at h1; exact Or.inl h1
+  | legacy sg cr =>
+    have : (step s (.legacy sg cr)).1.feegranter = s.feegranter := by
+      simp only [step]; unfold legacy
+      repeat' split
+      all_goals rfl
+    rw [this] at h1; exact Or.inl h1
+  | send x y d' amt now =>
+    have : (step s (.send x y d' amt now)).1.feegranter = s.feegranter := by
+      simp only [step]; unfold send
+      repeat' split
+      all_goals first | rfl | exact touchAcct_feegranter _ _
+    rw [this] at h1; exact Or.inl h1
+  | grant g' e' =>
+    have : (step s (.grant g' e')).1.feegranter = s.feegranter := by
+      simp only [step]; unfold grant
+      repeat' split
+      all_goals first | rfl | exact touchAcct_feegranter _ _
+    rw [this] at h1; exact Or.inl h1
+  | gift x d' amt now =>
+    have : (step s (.gift x d' amt now)).1.feegranter = s.feegranter := by
+      simp only [step]; unfold gift
+      repeat' split
+      all_goals rfl
+    rw [this] at h1; exact Or.inl h1
+  | fund x d' amt =>
+    have : (step s (.fund x d' amt)).1.feegranter = s.feegranter := by
+      simp only [step]; unfold fund; exact touchAcct_feegranter _ _
+    rw [this] at h1; exact Or.inl h1
+  | setFeegranter x =>
+    simp only [step, Option.some.injEq] at h1
+    right; rw [h1]
+  | setFunders l => exact Or.inl h1
+  | setContracts c => exact Or.inl h1
+
+theorem run_feegranter (s : State) (ops : List Op) (g : Addr) (h : (run s ops).feegranter = some g) :
+    s.feegranter = some g ∨ Op.setFeegranter g ∈ ops := by
+  induction ops generalizing s with
+  | nil => exact Or.inl h
+  | cons op ops ih =>
+    rcases ih _ h with h' | h'
+    · rcases step_feegranter s op g h' with h'' | h''
+      · exact Or.inl h''
+      · exact Or.inr (by rw [h'']; exact List.mem_cons_self)
+    · exact Or.inr (List.mem_cons_of_mem _ h')
+
+/-! ### who can be debited, and by how much -/
+
+theorem upd2_self (f : Nat → Nat → Nat) (a k v : Nat) : upd2 f a k v a k = v := by simp [upd2]
+
+theorem upd2_other (f : Nat → Nat → Nat) (a k v x y : Nat) (h : ¬ (x = a ∧ y = k)) : upd2 f a k v x y = f x y := by
+  simp [upd2, h]
+
+/-- every step that lowers the balance of an account does so at a block time, and leaves at least what is
+locked (still vesting) at that time: x/bank's `subUnlockedCoins` check, in `create` (creator), `sale` (funder),
+`send` (sender) and `gift` (sender) alike; no other operation debits anybody -/
+theorem step_debit (s : State) (op : Op) (x : Addr) (dn : Denom)
+    (h : (step s op).1.bal x dn < s.bal x dn) :
+    ∃ now, op.time = some now ∧ locked s x dn now ≤ (step s op).1.bal x dn := by
+  cases op with
+  | create sg cr cl amt d m now =>
+    refine ⟨now, rfl, ?_⟩
+    simp only [step] at h ⊢
+    cases hr : (create s sg cr cl amt d m now).2 with
+    | rejected => rw [create_rejected _ _ _ _ _ _ _ _ hr] at h; omega
+    | ok =>
+      obtain ⟨_, c, _, _, _, _, _, hsp, hs'⟩ := create_ok _ _ _ _ _ _ _ _ hr
+      rw [hs'] at h ⊢
+      simp only [licState] at h ⊢
+      by_cases hx : x = cr ∧ dn = d
+      · obtain ⟨hx1, hx2⟩ := hx; subst hx1; subst hx2
+        rw [upd2_self] at h ⊢
+        unfold spendable at hsp; omega
+      · rw [upd2_other _ _ _ _ _ _ hx] at h; omega
+  | sale ch cl g ct now =>
+    refine ⟨now, rfl, ?_⟩
+    simp only [step] at h ⊢
+    cases hr : (sale s ch cl g ct now).2 with
+    | rejected => rw [sale_rejected _ _ _ _ _ _ hr] at h; omega
+    | ok =>
+      obtain ⟨_, _, _, fg, fl, f, c, _, _, _, _, _, _, _, _, hsp, _, hs'⟩ := sale_ok _ _ _ _ _ _ hr
+      rw [hs'] at h ⊢
+      simp only [licState] at h ⊢
+      by_cases hx : x = f ∧ dn = bondDenom
+      · obtain ⟨hx1, hx2⟩ := hx; subst hx1; subst hx2
+        rw [upd2_self] at h ⊢
+        unfold spendable at hsp; omega
+      · rw [upd2_other _ _ _ _ _ _ hx] at h; omega
+  | activate sg cr now =>
+    exfalso
+    simp only [step] at h
+    cases hr : (activate s sg cr now).2 with
+    | rejected => rw [activate_rejected _ _ _ _ hr] at h; omega
+    | ok =>
+      obtain ⟨_, l, _, _, _, _, hs'⟩ := activate_ok _ _ _ _ hr
+      rw [hs'] at h
+      simp only at h
+      by_cases hx : x = cr.addr ∧ dn = l.denom
+      · obtain ⟨hx1, hx2⟩ := hx; subst hx1; subst hx2
+        rw [upd2_self] at h; omega
+      · rw [upd2_other _ _ _ _ _ _ hx] at h; omega
+  | auth sg cr => exfalso; simp only [step, auth_state] at h; omega
+  | legacy sg cr =>
+    exfalso
+    have : (step s (.legacy sg cr)).1.bal = s.bal := by
+      simp only [step]; unfold legacy
+      repeat' split
+      all_goals rfl
+    rw [this] at h; omega
+  | send a b d amt now =>
+    refine ⟨now, rfl, ?_⟩
+    simp only [step] at h ⊢
+    unfold send at h ⊢
+    split
+    · rename_i h1; rw [if_pos h1] at h; dsimp only at h; omega
+    · rename_i h1; rw [if_neg h1] at h
+      split
+      · rename_i h2; rw [if_pos h2] at h; dsimp only at h; omega
+      · rename_i h2; rw [if_neg h2] at h
+        cases b with
+        | none => simp only at h; omega
+        | some t =>
+          simp only at h ⊢
+          split
+          · rename_i h3; rw [if_pos h3] at h; dsimp only at h; omega
+          · rename_i h3; rw [if_neg h3] at h
+            rw [touchAcct_bal] at h ⊢
+            simp only at h ⊢
+            unfold spendable at h3
+            by_cases hxt : x = t ∧ dn = d
+            · obtain ⟨hx1, hx2⟩ := hxt; subst hx1; subst hx2
+              rw [upd2_self] at h ⊢
+              by_cases hxa : x = a
+              · subst hxa; rw [upd2_self] at h ⊢; omega
+              · rw [upd2_other _ _ _ _ _ _ (fun hh => hxa hh.1)] at h; omega
+            · rw [upd2_other _ _ _ _ _ _ hxt] at h ⊢
+              by_cases hxa : x = a ∧ dn = d
+              · obtain ⟨hx1, hx2⟩ := hxa; subst hx1; subst hx2
+                rw [upd2_self] at h ⊢; omega
+              · rw [upd2_other _ _ _ _ _ _ hxa] at h; omega
+  | grant g e =>
+    exfalso
+    have : (step s (.grant g e)).1.bal = s.bal := by
+      simp only [step]; unfold grant
+      repeat' split
+      all_goals first | rfl | exact touchAcct_bal _ _
+    rw [this] at h; omega
+  | gift a d amt now =>
+    refine ⟨now, rfl, ?_⟩
+    simp only [step] at h ⊢
+    unfold gift at h ⊢
+    split
+    · rename_i h1; rw [if_pos h1] at h; dsimp only at h; omega
+    · rename_i h1; rw [if_neg h1] at h
+      split
+      · rename_i h2; rw [if_pos h2] at h; dsimp only at h; omega
+      · rename_i h2; rw [if_neg h2] at h
+        simp only at h ⊢
+        unfold spendable at h2
+        by_cases hxa : x = a ∧ dn = d
+        · obtain ⟨hx1, hx2⟩ := hxa; subst hx1; subst hx2
+          rw [upd2_self] at h ⊢; omega
+        · rw [upd2_other _ _ _ _ _ _ hxa] at h; omega
+  | fund a d amt =>
+    exfalso
+    simp only [step] at h
+    unfold fund at h
+    rw [touchAcct_bal] at h
+    simp only at h
+    by_cases hxa : x = a ∧ dn = d
+    · obtain ⟨hx1, hx2⟩ := hxa; subst hx1; subst hx2
+      rw [upd2_self] at h; omega
+    · rw [upd2_other _ _ _ _ _ _ hxa] at h; omega
+  | setFeegranter a => exfalso; simp only [step] at h; omega
+  | setFunders l => exfalso; simp only [step] at h; omega
+  | setContracts c => exfalso; simp only [step] at h; omega
+
+theorem lockedAt_anti (orig start stop t1 t2 : Nat) (h : t1 ≤ t2) :
+    lockedAt orig start stop t2 ≤ lockedAt orig start stop t1 := by
+  have := vestedAt_mono orig start stop t1 t2 h
+  unfold lockedAt; omega
+
+/-- the coins of a vesting account that are still locked at time `T` stay in the account through every history
+whose operations run at block times up to `T` -/
+theorem locked_kept_run (s : State) (a : Addr) (o : Nat) (d : Denom) (st en T : Nat)
+    (hv : s.acct a = .vesting o d st en) (h0 : lockedAt o st en T ≤ s.bal a d) (ops : List Op)
+    (ht : ∀ op ∈ ops, ∀ t, op.time = some t → t ≤ T) :
+    lockedAt o st en T ≤ (run s ops).bal a d := by
+  induction ops generalizing s with
+  | nil => exact h0
+  | cons op ops ih =>
+    apply ih (step s op).1 (vesting_persists s op a o d st en hv)
+    · by_cases hlt : (step s op).1.bal a d < s.bal a d
+      · obtain ⟨now, hnow, hl⟩ := step_debit s op a d hlt
+        have hle := ht op List.mem_cons_self now hnow
+        have : locked s a d now = lockedAt o st en now := by simp [locked, lockedOf, hv]
+        rw [this] at hl
+        have := lockedAt_anti o st en now T hle
+        omega
+      · omega
+    · intro op' hop' t; exact ht op' (List.mem_cons_of_mem _ hop') t
+
+/-! ### the ghost `gifts` is a function of the history -/
+
+/-- what an operation gifts to the escrow account in denomination `d` when executed in `s`: the amount of an
+ACCEPTED `gift` of that denomination, nothing otherwise -/
+def giftOf (s : State) (op : Op) (d : Denom) : Nat :=
+  match op with
+  | .gift a d' amt now => if (gift s a d' amt now).2 = .ok ∧ d' = d then amt else 0
+  | _ => 0
+
+/-- total of the accepted gifts of a history started in `s` -/
+def giftLog (s : State) (d : Denom) : List Op → Nat
+  | [] => 0
+  | op :: ops => giftOf s op d + giftLog (step s op).1 d ops
+
+theorem step_gifts_log (s : State) (op : Op) (d : Denom) : (step s op).1.gifts d = s.gifts d + giftOf s op d := by
+  cases hg : op.isGift with
+  | false =>
+    rw [step_gifts s op hg]
+    cases op <;> simp [giftOf] <;> simp [Op.isGift] at hg
+  | true =>
+    cases op with
+    | gift a d' amt now =>
+      simp only [step, giftOf]
+      cases hr : (gift s a d' amt now).2 with
+      | rejected => rw [gift_rejected _ _ _ _ _ hr]; simp
+      | ok =>
+        unfold gift at hr ⊢
+        split
+        · rename_i h1; simp [h1] at hr
+        · split
+          · rename_i h1 h2; simp [h1, h2] at hr
+          · simp only [upd, true_and]
+            split
+            · rename_i hd; subst hd; simp
+            · rename_i hd; have : ¬ d' = d := fun h => hd h.symm
+              simp [this]
+    | _ => simp [Op.isGift] at hg
+
+theorem run_gifts_log (s : State) (ops : List Op) (d : Denom) :
+    (run s ops).gifts d = s.gifts d + giftLog s d ops := by
+  induction ops generalizing s with
+  | nil => simp [run, giftLog]
+  | cons op ops ih =>
+    simp only [run, giftLog]
+    rw [ih, step_gifts_log]; omega
+
+/-! ### counting accepted activations -/
+
+def Op.activates (a : Addr) : Op → Bool
+  | .activate _ k _ => k.addr == a
+  | _ => false
+
+/-- number of ACCEPTED activations of address `a` (under any spelling, by any signer) in a history from `s` -/
+def activations (a : Addr) (s : State) : List Op → Nat
+  | [] => 0
+  | op :: ops => (if op.activates a = true ∧ (step s op).2 = .ok then 1 else 0) + activations a (step s op).1 ops
+
+theorem activations_vesting (a : Addr) (s : State) (ops : List Op) (o : Nat) (d : Denom) (st en : Nat)
+    (hv : s.acct a = .vesting o d st en) : activations a s ops = 0 := by
+  induction ops generalizing s with
+  | nil => rfl
+  | cons op ops ih =>
+    simp only [activations]
+    rw [ih _ (vesting_persists s op a o d st en hv)]
+    have : ¬ (op.activates a = true ∧ (step s op).2 = .ok) := by
+      intro ⟨h1, h2⟩
+      cases op with
+      | activate sg k now =>
+        simp only [Op.activates, beq_iff_eq] at h1
+        simp only [step] at h2
+        obtain ⟨_, _, _, hb, _⟩ := activate_ok _ _ _ _ h2
+        rw [h1, hv] at hb; cases hb
+      | _ => simp [Op.activates] at h1
+    simp [this]
+
+theorem activations_le_one (a : Addr) (s : State) (ops : List Op) : activations a s ops ≤ 1 := by
+  induction ops generalizing s with
+  | nil => simp [activations]
+  | cons op ops ih =>
+    simp only [activations]
+    split
+    · rename_i h
+      cases op with
+      | activate sg k now =>
+        obtain ⟨h1, h2⟩ := h
+        simp only [Op.activates, beq_iff_eq] at h1
+        simp only [step] at h2 ⊢
+        obtain ⟨_, l, _, _, _, _, hs'⟩ := activate_ok _ _ _ _ h2
+        have hv : (activate s sg k now).1.acct a = .vesting l.amount l.denom now (addMonths now l.months) := by
+          rw [hs', ← h1]; simp [updA]
+        rw [activations_vesting a _ ops _ _ _ _ hv]; omega
+      | _ => simp [Op.activates] at h
+    · have := ih (step s op).1; omega
+
 end Lemmas
 
 
@@ -1031,6 +1797,59 @@ theorem escrow_covers (ops : List Op) (d : Denom) :
 theorem escrow_eq_without_gifts (ops : List Op) (h : ∀ op ∈ ops, op.isGift = false) (d : Denom) :
     (run State.init ops).escrow d = sumLic d (run State.init ops).lics := by
   rw [escrow_eq_sum_licences, run_gifts _ _ h]; rfl
+
+/-- the ghost `gifts` is not free: after any history it is exactly the sum of the amounts of the ACCEPTED
+`gift` operations (keeper-level transfers into the module account from outside the licence flow) of that
+history, so "absent outside gifts" means "the history contains no accepted gift". -/
+theorem gifts_are_accepted_gift_ops (ops : List Op) (d : Denom) :
+    (run State.init ops).gifts d = giftLog State.init d ops := by
+  rw [run_gifts_log]; simp [State.init]
+
+/-- … hence: escrow balance = outstanding licences + accepted gifts of the history, with no ghost left. -/
+theorem escrow_eq_licences_plus_gift_log (ops : List Op) (d : Denom) :
+    (run State.init ops).escrow d = sumLic d (run State.init ops).lics + giftLog State.init d ops := by
+  rw [escrow_eq_sum_licences, gifts_are_accepted_gift_ops]
+
+/-- what "covers" buys, part 1: every single outstanding licence can be paid out of the escrow balance of its
+denomination, after any history. -/
+theorem escrow_pays_every_licence (ops : List Op) (k : AddrStr) (l : Lic)
+    (h : lookupLic (run State.init ops).lics k = some l) : l.amount ≤ (run State.init ops).escrow l.denom := by
+  have := escrow_covers ops l.denom
+  have := sumLic_ge l.denom _ k l h rfl
+  omega
+
+/-- what "covers" buys, part 2: after any history an activation is accepted EXACTLY when the ante rule lets
+the signer act for the creator string and a licence is stored under that string.  The three other error
+branches of `CreateLightNodeClientAccount` — no base account (`ErrNoAccount`), an empty licence, a module
+account that cannot pay — are unreachable. -/
+theorem activate_ok_iff (ops : List Op) (sg : Addr) (k : AddrStr) (now : Nat) :
+    (activate (run State.init ops) sg k now).2 = .ok ↔
+      authorisedStr (run State.init ops) sg k = true ∧ (lookupLic (run State.init ops).lics k).isSome = true := by
+  constructor
+  · intro hok
+    obtain ⟨ha, l, hl, _⟩ := activate_ok _ _ _ _ hok
+    exact ⟨ha, by rw [hl]; rfl⟩
+  · intro ⟨ha, hl⟩
+    cases hl' : lookupLic (run State.init ops).lics k with
+    | none => rw [hl'] at hl; cases hl
+    | some l =>
+      have hi := inv_reach ops
+      obtain ⟨hb, hp⟩ := hi.lic k l hl'
+      have hesc := escrow_pays_every_licence ops k l hl'
+      unfold activate
+      have h1 : ¬ l.amount = 0 := by omega
+      have h2 : ¬ (run State.init ops).escrow l.denom < l.amount := by omega
+      simp [ha, hl', hb, h1, h2]
+
+/-- … in particular the licensee itself (canonical spelling of its address as creator) can ALWAYS activate a
+licence stored under that spelling: the funds are there and the account is in the right state. -/
+theorem activate_succeeds (ops : List Op) (k : AddrStr) (l : Lic) (now : Nat)
+    (hl : lookupLic (run State.init ops).lics k = some l) (hu : k.upper = false) :
+    (activate (run State.init ops) k.addr k now).2 = .ok := by
+  rw [activate_ok_iff]
+  have hb := ((inv_reach ops).lic k l hl).1
+  refine ⟨?_, by rw [hl]; rfl⟩
+  simp [authorisedStr, hb, hu]
 
 /-- **create_requires_fresh** (clause "a licence can be created only for an address that has neither an
 account nor a licence"), message path: an accepted `MsgAddLightNodeClientLicense` names a parseable client
@@ -1073,47 +1892,171 @@ theorem licence_only_for_fresh (s : State) (op : Op) (a : AddrStr) (l : Lic)
        (∃ ch g ct now, op = .sale ch (some a) g ct now ∧ l = ⟨(g * (grain : Int)).toNat, bondDenom, saleMonths⟩)) :=
   new_licence s op a l h0 h1
 
+/-- **licence_immutable**: in a reachable state no operation — by anybody — changes a stored licence (amount,
+denomination, vesting months); the only way it disappears is an ACCEPTED activation naming its own key. -/
+theorem licence_immutable (s : State) (hs : Reachable s) (op : Op) (k : AddrStr) (l : Lic)
+    (h0 : lookupLic s.lics k = some l) :
+    lookupLic (step s op).1.lics k = some l ∨
+      (lookupLic (step s op).1.lics k = none ∧ ∃ sg now, op = .activate sg k now ∧ (step s op).2 = .ok) :=
+  licence_step s (reachable_inv hs) op k l h0
+
+/-- **licence_origin** (history level: "created only for an address that has neither an account nor a
+licence", and the stored licence IS what was paid).  Every licence found after a history was issued by one
+operation of that history — an accepted `MsgAddLightNodeClientLicense` or attested sale naming exactly that
+key, executed when the address had no account and no licence under any spelling, which debited its payer and
+credited the escrow by exactly the licence amount (`Issued`) — and it has been stored unchanged in every state
+since. -/
+theorem licence_origin (ops : List Op) (k : AddrStr) (l : Lic)
+    (h : lookupLic (run State.init ops).lics k = some l) :
+    ∃ pre op post, ops = pre ++ op :: post ∧ Issued (run State.init pre) op k l ∧
+      Along (fun s => lookupLic s.lics k = some l) (step (run State.init pre) op).1 post := by
+  rcases run_origin (fun s => lookupLic s.lics k = some l) State.init ops h with ha | ⟨pre, op, post, he, hn, ha⟩
+  · have := ha.head; simp [State.init, lookupLic] at this
+  · refine ⟨pre, op, post, he, ?_, ha⟩
+    have h1 := ha.head
+    have hi := inv_reach pre
+    cases h0 : lookupLic (run State.init pre).lics k with
+    | none => exact issued_of_new _ hi op k l h0 h1
+    | some l0 =>
+      exfalso
+      rcases licence_step _ hi op k l0 h0 with h2 | ⟨h2, _⟩
+      · rw [h2] at h1; simp only [Option.some.injEq] at h1; subst h1; exact hn h0
+      · rw [h2] at h1; cases h1
+
+/-- **licence_leaves_only_by_activation** (history level): if a licence is stored after `pre` and is no
+longer stored (as it was) after `pre ++ post`, then `post` contains an ACCEPTED activation naming its key, and
+the licence was still there, unchanged, when that activation ran. -/
+theorem licence_leaves_only_by_activation (pre post : List Op) (k : AddrStr) (l : Lic)
+    (h0 : lookupLic (run State.init pre).lics k = some l)
+    (h1 : lookupLic (run State.init (pre ++ post)).lics k ≠ some l) :
+    ∃ p1 sg now p2, post = p1 ++ .activate sg k now :: p2 ∧
+      lookupLic (run State.init (pre ++ p1)).lics k = some l ∧
+      (step (run State.init (pre ++ p1)) (.activate sg k now)).2 = .ok := by
+  rw [run_append] at h1
+  rcases run_origin (fun s => lookupLic s.lics k ≠ some l) (run State.init pre) post h1 with ha | ⟨p1, op, p2, he, hn, ha⟩
+  · exact absurd h0 ha.head
+  · have hl : lookupLic (run (run State.init pre) p1).lics k = some l := Decidable.not_not.mp hn
+    have hi : Inv (run (run State.init pre) p1) := by rw [← run_append]; exact inv_reach _
+    rcases licence_step _ hi op k l hl with h2 | ⟨_, sg, now, hop, hok⟩
+    · exact absurd h2 ha.head
+    · subst hop
+      refine ⟨p1, sg, now, p2, he, ?_, ?_⟩
+      · rw [run_append]; exact hl
+      · rw [run_append]; exact hok
+
 /-- **activate_once**, who and when: an accepted `MsgRegisterLightNodeClient` whose creator string `k`
 decodes to address `a` finds a licence stored under exactly that string, and its signer is `a` itself
 (possible only for the canonical spelling) or an address `a` issued a fee grant to (paloma's rule for acting
 on behalf of a creator: `VerifyAuthorisedSignatureDecorator`). -/
-theorem activate_requires (s : State) (sg : Addr) (k : AddrStr) (stop now : Nat)
-    (hok : (activate s sg k stop now).2 = .ok) :
+theorem activate_requires (s : State) (sg : Addr) (k : AddrStr) (now : Nat)
+    (hok : (activate s sg k now).2 = .ok) :
     (∃ l, lookupLic s.lics k = some l) ∧ s.acct sg ≠ .none ∧
       ((k.upper = false ∧ sg = k.addr) ∨ (k.addr, sg) ∈ s.grants) := by
-  obtain ⟨ha, l, hl, _⟩ := activate_ok _ _ _ _ _ hok
+  obtain ⟨ha, l, hl, _⟩ := activate_ok _ _ _ _ hok
   simp only [authorisedStr, Bool.and_eq_true, bne_iff_ne, ne_eq, Bool.or_eq_true, beq_iff_eq,
     List.contains_iff_mem] at ha
   exact ⟨⟨l, hl⟩, ha⟩
 
+/-- **grant_origin**: a fee grant `g → e` present after a history was written by one accepted operation of
+that history: a `MsgGrantAllowance` from `g` to `e` — which only `g` itself can sign (ASSUMPTION, SDK: x/auth
+signature verification of the granter) — or a sale for client `e` executed while `g` was the address
+governance had configured as light-node fee granter. -/
+theorem grant_origin (ops : List Op) (g e : Addr) (h : (g, e) ∈ (run State.init ops).grants) :
+    ∃ pre op post, ops = pre ++ op :: post ∧ (step (run State.init pre) op).2 = .ok ∧
+      (op = .grant g e ∨
+        (∃ ch c gr ct now, op = .sale ch (some c) gr ct now ∧ c.addr = e ∧
+          (run State.init pre).feegranter = some g ∧ Op.setFeegranter g ∈ pre)) := by
+  rcases run_origin (fun s => (g, e) ∈ s.grants) State.init ops h with ha | ⟨pre, op, post, he, hn, ha⟩
+  · have := ha.head; simp [State.init] at this
+  · refine ⟨pre, op, post, he, ?_⟩
+    rcases step_grants _ op g e hn ha.head with ⟨hop, hok⟩ | ⟨ch, c, gr, ct, now, hop, hc, hfg, hok⟩
+    · exact ⟨hok, Or.inl hop⟩
+    · refine ⟨hok, Or.inr ⟨ch, c, gr, ct, now, hop, hc, hfg, ?_⟩⟩
+      rcases run_feegranter State.init pre g hfg with h' | h'
+      · simp [State.init] at h'
+      · exact h'
+
+/- **"activated … only by the licensed address itself"** — the FULL-STRENGTH clause
+
+     ∀ ops sg k now, (activate (run State.init ops) sg k now).2 = .ok → sg = k.addr
+
+   is FALSE, in the model and in the implementation (reproduced by the harness on the real app, stats
+   `activate.by_delegate`, `activate.by_sale_client_of_feegranter_licensee`): paloma's ante rule
+   (`VerifyAuthorisedSignatureDecorator`) lets any holder of a fee grant issued by the creator sign for the
+   creator.  Witnesses: `activation_by_delegate_reachable`, `activation_by_sale_client_reachable` below.
+   What IS true, at history level, is the following. -/
+
+/-- **activate_only_by_licensee_or_delegate** (history level).  After ANY history, an accepted activation of
+the licence stored under `k` is signed
+ (1) by the licensed address itself (canonical spelling), or
+ (2) by an address to which the licensed address ITSELF issued a fee grant earlier in the history (an accepted
+     `MsgGrantAllowance` from `k.addr`, which only `k.addr` can sign), or
+ (3) by the client of an earlier accepted sale that ran while the licensed address was the fee granter
+     configured by governance (`SetLightNodeClientFeegranter k.addr` is in the history before that sale).
+Nobody else can activate a licence.  In every case the coins go to the licensed address (`activation_exact`). -/
+theorem activate_only_by_licensee_or_delegate (ops : List Op) (sg : Addr) (k : AddrStr) (now : Nat)
+    (hok : (activate (run State.init ops) sg k now).2 = .ok) :
+    (k.upper = false ∧ sg = k.addr) ∨
+    (∃ pre post, ops = pre ++ .grant k.addr sg :: post ∧
+      (step (run State.init pre) (.grant k.addr sg)).2 = .ok) ∨
+    (∃ pre ch c gr ct t post, ops = pre ++ .sale ch (some c) gr ct t :: post ∧ c.addr = sg ∧
+      (step (run State.init pre) (.sale ch (some c) gr ct t)).2 = .ok ∧
+      (run State.init pre).feegranter = some k.addr ∧ Op.setFeegranter k.addr ∈ pre) := by
+  obtain ⟨_, _, hsig⟩ := activate_requires _ sg k now hok
+  rcases hsig with h | h
+  · exact Or.inl h
+  · obtain ⟨pre, op, post, he, hk, hop | ⟨ch, c, gr, ct, t, hop, hc, hfg, hset⟩⟩ := grant_origin ops k.addr sg h
+    · subst hop; exact Or.inr (Or.inl ⟨pre, post, he, hk⟩)
+    · subst hop; exact Or.inr (Or.inr ⟨pre, ch, c, gr, ct, t, post, he, hc, hk, hfg, hset⟩)
+
+/-- … and under the governance ASSUMPTION that the light-node fee granter is never set to the licensed address
+(`SetLightNodeClientFeegranter k.addr` does not occur in the history), only (1) and (2) remain: the licensee
+itself, or a delegate the licensee itself authorised.  Without the assumption (3) does occur:
+`activation_by_sale_client_reachable`. -/
+theorem activate_only_by_licensee_or_own_delegate (ops : List Op) (sg : Addr) (k : AddrStr) (now : Nat)
+    (hgov : Op.setFeegranter k.addr ∉ ops)
+    (hok : (activate (run State.init ops) sg k now).2 = .ok) :
+    (k.upper = false ∧ sg = k.addr) ∨
+    (∃ pre post, ops = pre ++ .grant k.addr sg :: post ∧
+      (step (run State.init pre) (.grant k.addr sg)).2 = .ok) := by
+  rcases activate_only_by_licensee_or_delegate ops sg k now hok with h | h | ⟨pre, ch, c, gr, ct, t, post, he, _, _, _, hset⟩
+  · exact Or.inl h
+  · exact Or.inr h
+  · exfalso; apply hgov; rw [he]; exact List.mem_append_left _ hset
+
 /-- **activate_once**, at most once: after an accepted activation of address `k.addr`, every later
 activation attempt for that address — under either spelling, by anyone, after any further history — is
 rejected. -/
-theorem activate_once (s : State) (sg : Addr) (k : AddrStr) (stop now : Nat)
-    (hok : (activate s sg k stop now).2 = .ok) (ops : List Op) (sg' : Addr) (k' : AddrStr)
-    (hk : k'.addr = k.addr) (stop' now' : Nat) :
-    (activate (run (activate s sg k stop now).1 ops) sg' k' stop' now').2 = .rejected := by
-  obtain ⟨_, l, _, _, _, _, hs'⟩ := activate_ok _ _ _ _ _ hok
-  have hv : (activate s sg k stop now).1.acct k.addr = .vesting l.amount l.denom now stop := by
+theorem activate_once (s : State) (sg : Addr) (k : AddrStr) (now : Nat)
+    (hok : (activate s sg k now).2 = .ok) (ops : List Op) (sg' : Addr) (k' : AddrStr)
+    (hk : k'.addr = k.addr) (now' : Nat) :
+    (activate (run (activate s sg k now).1 ops) sg' k' now').2 = .rejected := by
+  obtain ⟨_, l, _, _, _, _, hs'⟩ := activate_ok _ _ _ _ hok
+  have hv : (activate s sg k now).1.acct k.addr = .vesting l.amount l.denom now (addMonths now l.months) := by
     rw [hs']; simp [updA]
   have hv' := vesting_persists_run _ ops k.addr _ _ _ _ hv
-  cases hr : (activate (run (activate s sg k stop now).1 ops) sg' k' stop' now').2 with
+  cases hr : (activate (run (activate s sg k now).1 ops) sg' k' now').2 with
   | rejected => rfl
   | ok =>
-    obtain ⟨_, _, _, hb, _⟩ := activate_ok _ _ _ _ _ hr
+    obtain ⟨_, _, _, hb, _⟩ := activate_ok _ _ _ _ hr
     rw [hk, hv'] at hb; cases hb
 
+/-- **activated_at_most_once** (history level, counting form): in ANY history the number of accepted
+activations of an address — under either spelling of the creator string, by any signer — is at most one. -/
+theorem activated_at_most_once (ops : List Op) (a : Addr) : activations a State.init ops ≤ 1 :=
+  activations_le_one a State.init ops
+
 /-- … nor can a new licence ever be created for an activated address (so there is nothing to activate). -/
-theorem no_licence_after_activation (s : State) (hs : Reachable s) (sg : Addr) (k : AddrStr) (stop now : Nat)
-    (hok : (activate s sg k stop now).2 = .ok) (ops : List Op) (k' : AddrStr) (hk : k'.addr = k.addr) :
-    lookupLic (run (activate s sg k stop now).1 ops).lics k' = none := by
-  obtain ⟨_, l, _, _, _, _, hs'⟩ := activate_ok _ _ _ _ _ hok
-  have hv : (activate s sg k stop now).1.acct k.addr = .vesting l.amount l.denom now stop := by
+theorem no_licence_after_activation (s : State) (hs : Reachable s) (sg : Addr) (k : AddrStr) (now : Nat)
+    (hok : (activate s sg k now).2 = .ok) (ops : List Op) (k' : AddrStr) (hk : k'.addr = k.addr) :
+    lookupLic (run (activate s sg k now).1 ops).lics k' = none := by
+  obtain ⟨_, l, _, _, _, _, hs'⟩ := activate_ok _ _ _ _ hok
+  have hv : (activate s sg k now).1.acct k.addr = .vesting l.amount l.denom now (addMonths now l.months) := by
     rw [hs']; simp [updA]
   have hv' := vesting_persists_run _ ops k.addr _ _ _ _ hv
-  have hinv : Inv (run (activate s sg k stop now).1 ops) :=
-    inv_run (inv_step (reachable_inv hs) (.activate sg k stop now)) ops
-  cases hl : lookupLic (run (activate s sg k stop now).1 ops).lics k' with
+  have hinv : Inv (run (activate s sg k now).1 ops) :=
+    inv_run (inv_step (reachable_inv hs) (.activate sg k now)) ops
+  cases hl : lookupLic (run (activate s sg k now).1 ops).lics k' with
   | none => rfl
   | some l' => have := (hinv.lic k' l' hl).1; rw [hk, hv'] at this; cases this
 
@@ -1130,24 +2073,24 @@ and nothing else, debits the escrow by exactly that, touches no other balance, r
 licence is left for `a` under any spelling), and turns `a`'s account into a continuous vesting account with
 original vesting `l.amount`, start `now` and the end time computed by Go; the whole amount is locked at
 `now`. -/
-theorem activation_exact (s : State) (hs : Reachable s) (sg : Addr) (k : AddrStr) (stop now : Nat)
-    (hok : (activate s sg k stop now).2 = .ok) :
+theorem activation_exact (s : State) (hs : Reachable s) (sg : Addr) (k : AddrStr) (now : Nat)
+    (hok : (activate s sg k now).2 = .ok) :
     ∃ l, lookupLic s.lics k = some l ∧
       let a := k.addr
-      let s' := (activate s sg k stop now).1
+      let s' := (activate s sg k now).1
       s'.bal a l.denom = s.bal a l.denom + l.amount ∧
       (∀ b d, ¬ (b = a ∧ d = l.denom) → s'.bal b d = s.bal b d) ∧
       s'.escrow l.denom + l.amount = s.escrow l.denom ∧
       (∀ d, d ≠ l.denom → s'.escrow d = s.escrow d) ∧
-      s'.acct a = .vesting l.amount l.denom now stop ∧
+      s'.acct a = .vesting l.amount l.denom now (addMonths now l.months) ∧
       (∀ b, b ≠ a → s'.acct b = s.acct b) ∧
       (∀ k', k'.addr = a → lookupLic s'.lics k' = none) ∧
       (∀ k', k'.addr ≠ a → lookupLic s'.lics k' = lookupLic s.lics k') ∧
       locked s' a l.denom now = l.amount := by
-  obtain ⟨_, l, hl, _, _, hesc, hs'⟩ := activate_ok _ _ _ _ _ hok
+  obtain ⟨_, l, hl, _, _, hesc, hs'⟩ := activate_ok _ _ _ _ hok
   refine ⟨l, hl, ?_⟩
   intro a s'
-  have hnone := no_licence_after_activation s hs sg k stop now hok []
+  have hnone := no_licence_after_activation s hs sg k now hok []
   have e : s' = _ := hs'
   refine ⟨by rw [e]; simp [upd2, a], ?_, by rw [e]; simp [upd]; omega, ?_, by rw [e]; simp [updA, a], ?_, ?_, ?_, ?_⟩
   · intro b d hbd; rw [e]; simp [upd2, a] at hbd ⊢; exact fun h1 h2 => absurd h2 (hbd h1)
@@ -1158,6 +2101,74 @@ theorem activation_exact (s : State) (hs : Reachable s) (sg : Addr) (k : AddrStr
     rw [e]
     exact lookupLic_erase_ne _ _ _ (fun h => hk' (by rw [← h]))
   · rw [e]; simp [locked, lockedOf, updA, lockedAt, vestedAt, a]
+
+/-- **activation_pays_what_was_paid** (history level: "moves exactly the licensed amount" — and the licensed
+amount is the amount PAID for the licence).  Whenever an activation is accepted after a history, that history
+contains the purchase (`Issued`: accepted message or attested sale, for a then account-less and licence-less
+address) whose payer was debited, and the escrow credited, by an amount `l.amount` of `l.denom` with `l.months`
+vesting months; the licence was stored unchanged ever since; and the activation credits the licensed address
+with exactly `l.amount` of `l.denom`, debits the escrow by exactly that, and starts a vesting schedule over
+exactly `l.months` calendar months from the activation time. -/
+theorem activation_pays_what_was_paid (ops : List Op) (sg : Addr) (k : AddrStr) (now : Nat)
+    (hok : (activate (run State.init ops) sg k now).2 = .ok) :
+    ∃ pre op post l, ops = pre ++ op :: post ∧ Issued (run State.init pre) op k l ∧
+      Along (fun s => lookupLic s.lics k = some l) (step (run State.init pre) op).1 post ∧
+      let s := run State.init ops
+      let s' := (activate s sg k now).1
+      s'.bal k.addr l.denom = s.bal k.addr l.denom + l.amount ∧
+      s'.escrow l.denom + l.amount = s.escrow l.denom ∧
+      s'.acct k.addr = .vesting l.amount l.denom now (addMonths now l.months) := by
+  obtain ⟨l, hl, hex⟩ := activation_exact _ ⟨ops, rfl⟩ sg k now hok
+  obtain ⟨pre, op, post, he, hiss, hal⟩ := licence_origin ops k l hl
+  exact ⟨pre, op, post, l, he, hiss, hal, hex.1, hex.2.2.1, hex.2.2.2.2.1⟩
+
+/-- **vesting_period_is_licence_months** (clause "over the licence's vesting period starting at activation").
+The schedule written by an accepted activation at block time `now` is NOT an input: it starts at `now` and ends
+at `addMonths now l.months`, Go's `now.AddDate(0, l.months, 0)` for the `months` stored in the licence (which
+`licence_origin` ties to the purchase).  That end lies between `28·months` and `31·months` days after `now`; the
+whole amount is locked up to and including `now`, nothing is locked from the end on; for `months = 0` the period
+is empty and everything is unlocked one second after activation (this is what the code does; the quantifier
+"all vesting periods" includes 0). -/
+theorem vesting_period_is_licence_months (s : State) (sg : Addr) (k : AddrStr) (now : Nat)
+    (hok : (activate s sg k now).2 = .ok) :
+    ∃ l, lookupLic s.lics k = some l ∧
+      (activate s sg k now).1.acct k.addr = .vesting l.amount l.denom now (addMonths now l.months) ∧
+      now + 28 * 86400 * l.months ≤ addMonths now l.months ∧ addMonths now l.months ≤ now + 31 * 86400 * l.months ∧
+      (∀ t, t ≤ now → locked (activate s sg k now).1 k.addr l.denom t = l.amount) ∧
+      (∀ t, addMonths now l.months ≤ t → now < t → locked (activate s sg k now).1 k.addr l.denom t = 0) ∧
+      (l.months = 0 → locked (activate s sg k now).1 k.addr l.denom (now + 1) = 0) := by
+  obtain ⟨_, l, hl, _, _, _, hs'⟩ := activate_ok _ _ _ _ hok
+  have hv : (activate s sg k now).1.acct k.addr = .vesting l.amount l.denom now (addMonths now l.months) := by
+    rw [hs']; simp [updA]
+  have hb := addMonths_bounds now l.months
+  have hlk : ∀ t, locked (activate s sg k now).1 k.addr l.denom t = lockedAt l.amount now (addMonths now l.months) t := by
+    intro t; simp [locked, lockedOf, hv]
+  refine ⟨l, hl, hv, hb.1, hb.2, ?_, ?_, ?_⟩
+  · intro t ht; rw [hlk]; simp [lockedAt, vestedAt, ht]
+  · intro t h1 h2
+    have : ¬ t ≤ now := by omega
+    rw [hlk]; simp [lockedAt, vestedAt, this, h1]
+  · intro hm
+    rw [hlk, hm, addMonths_zero]
+    have : ¬ now + 1 ≤ now := by omega
+    simp [lockedAt, vestedAt, this]
+
+/-- the calendar behind `addMonths` is the civil (proleptic Gregorian, UTC) calendar: the year and month
+computed for a day are the ones whose first day is at or before that day and whose successor's first day is
+after it; the date read off a time gives back its day number; a month has 28 to 31 days; and adding `k` months
+is the shift by the length of the `k` calendar months starting with the current one (so `addMonths t 0 = t`).
+Agreement with Go's `AddDate` on concrete inputs is checked by the harness diff (stored `EndTime`). -/
+theorem addMonths_calendar (t k : Nat) :
+    (daysBeforeYear (yearAt t) ≤ dayNo t ∧ dayNo t < daysBeforeYear (yearAt t + 1)) ∧
+    (1 ≤ monthAt t ∧ monthAt t ≤ 12) ∧
+    monthStart (monthIdxAt t) + domAt t = dayNo t ∧
+    (monthStart (monthIdxAt t + k) + 28 ≤ monthStart (monthIdxAt t + k + 1) ∧
+      monthStart (monthIdxAt t + k + 1) ≤ monthStart (monthIdxAt t + k) + 31) ∧
+    addMonths t k = t + (monthStart (monthIdxAt t + k) - monthStart (monthIdxAt t)) * 86400 ∧
+    addMonths t 0 = t := by
+  have hm := monthOf_spec (yearAt t) (dayNo t - daysBeforeYear (yearAt t))
+  exact ⟨yearOf_spec (dayNo t), ⟨hm.1, hm.2.1⟩, civil_roundtrip t, monthStart_step _, addMonths_eq_shift t k,
+    addMonths_zero t⟩
 
 /-- **vesting_linear** (clause "unlocks linearly over the licence's vesting period starting at
 activation").  For a continuous vesting account `(orig, start, stop)` as the SDK computes it
@@ -1192,9 +2203,19 @@ theorem vesting_linear (orig start stop : Nat) :
   · intro t h1 h2
     exact vestedAt_linear orig start stop t h1 h2
 
-/-- … and the lock is enforced: a bank send from any account of more than balance − locked is refused,
-so an activated address can move the licensed coins only as they vest. -/
-theorem locked_enforced (s : State) (a : Addr) (b : Option Addr) (d : Denom) (amt : Int) (now : Nat)
+/-- **locked_enforced** — for EVERY operation of the model, not just the bank send: whenever a step lowers
+the balance of an account (the creator paying for a licence, the funder of a sale, the sender of a bank transfer
+or of a gift — nothing else debits anybody), what remains is at least what is still locked (unvested) at the
+block time of that step.  So an activated address can move the licensed coins only as they vest, through
+whichever path. -/
+theorem locked_enforced (s : State) (op : Op) (x : Addr) (d : Denom)
+    (h : (step s op).1.bal x d < s.bal x d) :
+    ∃ now, op.time = some now ∧ locked s x d now ≤ (step s op).1.bal x d :=
+  step_debit s op x d h
+
+/-- … the same for the bank send alone, with the exact numbers: an accepted send of `amt` leaves
+`amt + locked ≤ balance` (a send of more than balance − locked is refused). -/
+theorem locked_enforced_send (s : State) (a : Addr) (b : Option Addr) (d : Denom) (amt : Int) (now : Nat)
     (hok : (send s a b d amt now).2 = .ok) : 0 < amt ∧ amt.toNat + locked s a d now ≤ s.bal a d := by
   unfold send at hok
   split at hok
@@ -1211,13 +2232,31 @@ theorem locked_enforced (s : State) (a : Addr) (b : Option Addr) (d : Denom) (am
           have : 0 < amt.toNat := by omega
           omega
 
-/-- the vesting schedule written at activation is the one in force after any later history -/
-theorem vesting_schedule_fixed (s : State) (sg : Addr) (k : AddrStr) (stop now : Nat)
-    (hok : (activate s sg k stop now).2 = .ok) (ops : List Op) :
+/-- **vested_only_spendable** (history level: "a continuously vesting balance that unlocks linearly").  After an
+accepted activation at block time `now`, through EVERY later history — any operations by anybody, accepted or
+rejected — whose block times do not exceed `T`, the licensed address still holds at least the part of the licence
+that is locked at `T` under the schedule `(l.amount, now, addMonths now l.months)`: at most the vested part
+(`vesting_linear`) has ever left the account. -/
+theorem vested_only_spendable (s : State) (sg : Addr) (k : AddrStr) (now : Nat)
+    (hok : (activate s sg k now).2 = .ok) (ops : List Op) (T : Nat)
+    (ht : ∀ op ∈ ops, ∀ t, op.time = some t → t ≤ T) :
     ∃ l, lookupLic s.lics k = some l ∧
-      ∀ t, locked (run (activate s sg k stop now).1 ops) k.addr l.denom t = lockedAt l.amount now stop t := by
-  obtain ⟨_, l, hl, _, _, _, hs'⟩ := activate_ok _ _ _ _ _ hok
-  have hv : (activate s sg k stop now).1.acct k.addr = .vesting l.amount l.denom now stop := by
+      lockedAt l.amount now (addMonths now l.months) T ≤ (run (activate s sg k now).1 ops).bal k.addr l.denom := by
+  obtain ⟨_, l, hl, _, _, _, hs'⟩ := activate_ok _ _ _ _ hok
+  have hv : (activate s sg k now).1.acct k.addr = .vesting l.amount l.denom now (addMonths now l.months) := by
+    rw [hs']; simp [updA]
+  have hb : (activate s sg k now).1.bal k.addr l.denom = s.bal k.addr l.denom + l.amount := by
+    rw [hs']; simp [upd2]
+  have hle := (vesting_linear l.amount now (addMonths now l.months)).2.2.2.1 T
+  refine ⟨l, hl, locked_kept_run _ k.addr l.amount l.denom now _ T hv (by omega) ops ht⟩
+
+/-- the vesting schedule written at activation is the one in force after any later history -/
+theorem vesting_schedule_fixed (s : State) (sg : Addr) (k : AddrStr) (now : Nat)
+    (hok : (activate s sg k now).2 = .ok) (ops : List Op) :
+    ∃ l, lookupLic s.lics k = some l ∧
+      ∀ t, locked (run (activate s sg k now).1 ops) k.addr l.denom t = lockedAt l.amount now (addMonths now l.months) t := by
+  obtain ⟨_, l, hl, _, _, _, hs'⟩ := activate_ok _ _ _ _ hok
+  have hv : (activate s sg k now).1.acct k.addr = .vesting l.amount l.denom now (addMonths now l.months) := by
     rw [hs']; simp [updA]
   have hv' := vesting_persists_run _ ops k.addr _ _ _ _ hv
   exact ⟨l, hl, fun t => by simp [locked, lockedOf, hv']⟩
@@ -1314,7 +2353,7 @@ theorem failed_op_is_noop (s : State) (op : Op) (h : (step s op).2 = .rejected) 
   cases op with
   | create sg cr cl amt d m now => exact create_rejected _ _ _ _ _ _ _ _ h
   | sale ch cl g ct now => exact sale_rejected _ _ _ _ _ _ h
-  | activate sg cr stop now => exact activate_rejected _ _ _ _ _ h
+  | activate sg cr now => exact activate_rejected _ _ _ _ h
   | auth sg cr => exact auth_state _ _ _
   | legacy sg cr => exact legacy_rejected _ _ _ h
   | send x y d amt now => exact send_rejected _ _ _ _ _ _ h
@@ -1340,17 +2379,67 @@ example : exState.escrow 0 = 5001057 ∧ sumLic 0 exState.lics = 5001050 ∧ exS
 example : lookupLic exState.lics ⟨4, false⟩ = some ⟨1000, 0, 3⟩ ∧
     lookupLic exState.lics ⟨5, false⟩ = some ⟨5000000, 0, 24⟩ := by decide
 example : exState.bal 1 0 = 25000000 ∧ exState.acct 5 = .base ∧ exState.grants = [(0, 5)] := by decide
--- activation by the licensee succeeds once, then never again; by a stranger it is refused
-example : (activate exState 4 ⟨4, false⟩ 8000200 200).2 = .ok := by decide
-example : (activate (activate exState 4 ⟨4, false⟩ 8000200 200).1 4 ⟨4, false⟩ 8000300 300).2 = .rejected := by decide
-example : (activate exState 0 ⟨4, false⟩ 8000200 200).2 = .rejected := by decide
-example : (activate exState 4 ⟨4, false⟩ 8000200 200).1.acct 4 = .vesting 1000 0 200 8000200 ∧
-    (activate exState 4 ⟨4, false⟩ 8000200 200).1.bal 4 0 = 1000 ∧
-    (activate exState 4 ⟨4, false⟩ 8000200 200).1.escrow 0 = 5000057 := by decide
+-- activation by the licensee succeeds once, then never again; by a stranger it is refused.  The licence for 4
+-- has 3 vesting months: activated on 1970-01-01 00:03:20 it vests until 1970-04-01 00:03:20 (31 + 28 + 31 days)
+example : (activate exState 4 ⟨4, false⟩ 200).2 = .ok := by decide
+example : (activate (activate exState 4 ⟨4, false⟩ 200).1 4 ⟨4, false⟩ 300).2 = .rejected := by decide
+example : (activate exState 0 ⟨4, false⟩ 200).2 = .rejected := by decide
+example : (activate exState 4 ⟨4, false⟩ 200).1.acct 4 = .vesting 1000 0 200 7776200 ∧
+    (activate exState 4 ⟨4, false⟩ 200).1.bal 4 0 = 1000 ∧
+    (activate exState 4 ⟨4, false⟩ 200).1.escrow 0 = 5000057 := by decide
+-- the calendar: month overflow into the year, day overflow into the next month (2024-01-31 + 1 month = 2024-03-02,
+-- 2023-01-31 + 1 month = 2023-03-03), leap day, 24 months, zero months
+example : addMonths 1706659200 1 = 1709337600 ∧ addMonths 1675123200 1 = 1677801600 ∧
+    addMonths 1709164800 12 = 1740787200 ∧ addMonths 1735689599 24 = 1798761599 ∧ addMonths 1735689599 0 = 1735689599 ∧
+    addMonths 1701388800 2 = 1706745600 := by decide
 -- a licence keyed by the upper-case spelling: the licensee cannot activate it itself under either spelling,
 -- only a delegate it issued a fee grant to can (creator = the upper-case string)
-example : (activate exState 7 ⟨7, true⟩ 2700000 200).2 = .rejected ∧ (activate exState 7 ⟨7, false⟩ 2700000 200).2 = .rejected ∧
-    (activate (grant exState 7 8).1 8 ⟨7, true⟩ 2700000 200).2 = .ok := by decide
+example : (activate exState 7 ⟨7, true⟩ 200).2 = .rejected ∧ (activate exState 7 ⟨7, false⟩ 200).2 = .rejected ∧
+    (activate (grant exState 7 8).1 8 ⟨7, true⟩ 200).2 = .ok := by decide
+-- a zero-month licence: everything is locked at the activation second and free one second later
+example : (activate (create exState 0 0 (some ⟨6, false⟩) 10 0 0 130).1 6 ⟨6, false⟩ 200).1.acct 6 = .vesting 10 0 200 200 ∧
+    locked (activate (create exState 0 0 (some ⟨6, false⟩) 10 0 0 130).1 6 ⟨6, false⟩ 200).1 6 0 200 = 10 ∧
+    locked (activate (create exState 0 0 (some ⟨6, false⟩) 10 0 0 130).1 6 ⟨6, false⟩ 200).1 6 0 201 = 0 := by decide
+
+/-- the full-strength clause "activated only by the licensed address itself" is FALSE (1): the licensee 4
+issues a fee grant to 8 (`MsgGrantAllowance`), and 8 — not 4 — activates 4's licence.  History from the empty
+state; disjunct (2) of `activate_only_by_licensee_or_delegate`. -/
+theorem activation_by_delegate_reachable :
+    ∃ ops sg k now, (activate (run State.init ops) sg k now).2 = .ok ∧ sg ≠ k.addr ∧
+      (∃ pre post, ops = pre ++ .grant k.addr sg :: post) :=
+  ⟨exOps ++ [.grant 4 8], 8, ⟨4, false⟩, 200, by decide, by decide, exOps, [], rfl⟩
+
+/-- … FALSE (2), without any act of the licensee: governance configures address 4 — which holds a not yet
+activated licence — as light-node fee granter; the sale for client 6 writes the grant 4 → 6; client 6 then
+activates 4's licence.  Disjunct (3) of `activate_only_by_licensee_or_delegate`; the coins still go to 4. -/
+theorem activation_by_sale_client_reachable :
+    ∃ ops sg k now, (activate (run State.init ops) sg k now).2 = .ok ∧ sg ≠ k.addr ∧
+      (∀ pre post, ops ≠ pre ++ .grant k.addr sg :: post) ∧
+      (activate (run State.init ops) sg k now).1.bal k.addr 0 = (run State.init ops).bal k.addr 0 + 1000 ∧
+      (activate (run State.init ops) sg k now).1.bal sg 0 = (run State.init ops).bal sg 0 := by
+  refine ⟨exOps ++ [.setFeegranter 4, .sale 0 (some ⟨6, false⟩) 5 1 130], 6, ⟨4, false⟩, 200, by decide, by decide, ?_,
+    by decide, by decide⟩
+  intro pre post h
+  have : Op.grant 4 6 ∈ exOps ++ [.setFeegranter 4, .sale 0 (some ⟨6, false⟩) 5 1 130] := by
+    rw [h]; simp
+  simp [exOps] at this
+
+-- the counting form and the provenance theorems are not vacuous on this history: one accepted activation of 4
+-- among three attempts; the licence of 5 stems from the sale, that of 4 from the message
+example : activations 4 State.init (exOps ++ [.activate 0 ⟨4, false⟩ 190, .activate 4 ⟨4, false⟩ 200, .activate 4 ⟨4, false⟩ 300]) = 1 := by
+  decide
+example : Issued (run State.init (exOps.take 5)) (.create 0 0 (some ⟨4, false⟩) 1000 0 3 100) ⟨4, false⟩ ⟨1000, 0, 3⟩ := by
+  refine ⟨by decide, by decide, ?_, by decide, by decide, Or.inl ⟨0, 0, 1000, 0, 3, 100, rfl, by decide, by decide⟩⟩
+  intro k' _
+  have : (run State.init (exOps.take 5)).lics = [] := by decide
+  rw [this]; rfl
+example : giftLog State.init 0 exOps = 7 ∧ giftLog State.init 1 exOps = 0 := by decide
+-- a debit is refused as long as the coins are locked, whatever the path (send, licence purchase, gift)
+example : (send (activate exState 4 ⟨4, false⟩ 200).1 4 (some 0) 0 1 201).2 = .rejected ∧
+    (create (activate exState 4 ⟨4, false⟩ 200).1 4 4 (some ⟨6, false⟩) 1 0 0 201).2 = .rejected ∧
+    (gift (activate exState 4 ⟨4, false⟩ 200).1 4 0 1 201).2 = .rejected ∧
+    (send (activate exState 4 ⟨4, false⟩ 200).1 4 (some 0) 0 500 3888200).2 = .ok ∧
+    (send (activate exState 4 ⟨4, false⟩ 200).1 4 (some 0) 0 501 3888200).2 = .rejected := by decide
 -- creation for an address that has an account / a licence (under any spelling) is refused
 example : (create exState 0 0 (some ⟨1, false⟩) 10 0 3 130).2 = .rejected ∧
     (create exState 0 0 (some ⟨4, false⟩) 10 0 3 130).2 = .rejected ∧
@@ -1375,6 +2464,6 @@ example : (sale exMulti 1 (some ⟨6, false⟩) 25 emptyStr 130).2 = .rejected 
     (sale exMulti 2 (some ⟨6, false⟩) 25 emptyStr 130).2 = .ok := by decide
 -- rounding is half-even at 18 decimals, not truncation: 1000 over 3 s vests 333, then 667 (not 666)
 example : lockedAt 1000 0 3 1 = 667 ∧ lockedAt 1000 0 3 2 = 333 ∧ lockedAt 1000 0 3 3 = 0 ∧ lockedAt 1000 0 3 0 = 1000 := by decide
-example : lockedAt 1000 200 8000200 4000200 = 500 := by decide
+example : lockedAt 1000 200 7776200 3888200 = 500 := by decide
 
 end Paloma.LightNode
